@@ -100,8 +100,28 @@ def op_table():
         ('cull', base, lambda c: c.cull()),
         ('block commit', base, blk_commit),
         ('block abort', base, blk_abort),
+        # persistent containers built on a cache (their own keys live in the same table)
+        ('Deque.append at maxlen', base, lambda c: _dq(c, 3).append(BIGS)),
+        ('Deque.appendleft at maxlen', base, lambda c: _dq(c, 3).appendleft(BIGB)),
+        ('Deque.rotate', base, lambda c: _dq(c, None).rotate(2)),
+        ('Deque.popleft', base, lambda c: _dq(c, None).popleft()),
+        ('Deque.extend', base, lambda c: _dq(c, 4).extend([BIGS, 'x', BIGB])),
+        ('Index.popitem', base, lambda c: _ix(c).popitem()),
+        ('Index.setdefault new', base, lambda c: _ix(c).setdefault('fresh', BIGS)),
+        ('Index.update', base, lambda c: _ix(c).update({'u1': BIGS, 's': BIGB})),
+        ('Index.pop file', base, lambda c: _ix(c).pop('f')),
     ]
     return T_
+
+
+def _dq(c, maxlen):
+    import diskcache
+    return diskcache.Deque.fromcache(c, maxlen=maxlen)
+
+
+def _ix(c):
+    import diskcache
+    return diskcache.Index.fromcache(c)
 
 
 class Unpicklable:
@@ -223,7 +243,7 @@ def failpoint_enumeration(dc, sc, res, shard, nshards, tier):
                         action(cache)
                     except fault.Injected:
                         outcome = 'block-aborted'
-                    except (sqlite3.OperationalError, OSError) as exc:
+                    except (sqlite3.OperationalError, OSError, KeyError, IndexError) as exc:
                         outcome = type(exc).__name__
                     except Exception as exc:      # noqa: BLE001
                         outcome = 'other:' + type(exc).__name__
